@@ -4,9 +4,8 @@
 (* drop, at any moment - in particular racing with sends).                   *)
 (*   MC_LogThread_2x3.cfg   2 senders x 3 messages over 2 addresses (safety) *)
 (*   MC_LogThread_3x2.cfg   3 senders x 2 messages over 2 addresses (safety) *)
-(*   MC_LogThread_live.cfg / _live2x3.cfg   liveness on 2 x 2 / 2 x 3        *)
-(* (safety and liveness are separate runs: with fairness in the              *)
-(* specification TLC keeps its liveness graph, which is several times slower)*)
+(* Liveness is checked by MC_LogThreadLive (separate runs: with fairness in  *)
+(* the specification TLC keeps its liveness graph, several times slower).    *)
 (* Checked: the three clauses of C25 (Delivered, GeneralOrder, LastWins),    *)
 (* FoldRefinement, the refinement LogThread => LogThreadAbs (the machine     *)
 (* trace validation uses), agreement of the two formulations of the result   *)
@@ -31,23 +30,26 @@ Script3 == <<
   << M(3, "alog", 3, <<2>>),  M(4, "cwe", 4, <<2, 1>>) >>,
   << M(5, "alog", 5, <<2>>),  M(6, "log", 6, <<>>) >> >>
 
-\* small instance for the liveness properties (quick tier): 2 x 2
-ScriptL == <<
-  << M(1, "cwe", 1, <<1>>),    M(2, "log", 2, <<>>) >>,
-  << M(4, "cwe", 4, <<1, 2>>), M(5, "alog", 5, <<1>>) >> >>
-
 AllMsgs == UNION {{Script[s][k] : k \in 1..Len(Script[s])} : s \in Senders}
 
 -----------------------------------------------------------------------------
-\* refinement: every step of the concurrent machine is a step of LogThreadAbs or stutters
-A == INSTANCE LogThreadAbs WITH fold <- Fold(Prefix(chan)), termd <- HasTerm(chan)
+\* Refinement: every step of the concurrent machine is a step of LogThreadAbs or stutters, under
+\*    fold <- Fold(Prefix(chan)),  termd <- HasTerm(chan).
+\* TLC re-evaluates a substituted expression at every occurrence; so the two state functions are
+\* kept in auxiliary variables that are DEFINED to be the mapping in every state (not maintained
+\* incrementally - nothing about the abstraction is presupposed).
+VARIABLES gfold, gterm
+mcvars == <<vars, gfold, gterm>>
+MCInit == Init /\ gfold = Fold(Prefix(chan)) /\ gterm = HasTerm(chan)
+MCNext == Next /\ gfold' = Fold(Prefix(chan')) /\ gterm' = HasTerm(chan')
+MCSafetySpec == MCInit /\ [][MCNext]_mcvars
+A == INSTANCE LogThreadAbs WITH fold <- gfold, termd <- gterm
 
 AbsStep ==
-  \/ UNCHANGED <<spc, cur, chan, opc, result>>      \* collector steps: invisible (cheap test first)
   \/ \E s \in Senders : A!SendStart(s, cur'[s]) \/ A!Enqueue(s) \/ A!SendEnd(s)
   \/ A!CollectStart \/ A!DropStart \/ A!SendTerminate \/ A!CollectEndExact \/ A!DropEnd
-  \/ UNCHANGED A!avars
-Refines == [][AbsStep]_vars
+  \/ UNCHANGED A!avars                               \* collector steps are invisible
+Refines == [][AbsStep]_mcvars
 AbsInit == A!InitWith(Senders)
 
 -----------------------------------------------------------------------------
@@ -62,6 +64,9 @@ Variants(r) ==
   \cup {[r EXCEPT !.cwes = Append(@, r.cwes[i])] : i \in 1..Len(r.cwes)}
   \cup {[r EXCEPT !.cwes[i] = Payload(m)] : i \in 1..Len(r.cwes), m \in {x \in AllMsgs : IsCwe(x)}}
   \cup {[r EXCEPT !.logs[i] = Payload(m)] : i \in 1..Len(r.logs), m \in {x \in AllMsgs : ~IsCwe(x)}}
-OracleAgree == opc = "collected" =>
-  \A r \in Variants(result) : ResultMatches(Fold(Q), r) <=> PropertyOK(Q, r)
+OracleAgreeAt == \A r \in Variants(result) : ResultMatches(gfold, r) <=> PropertyOK(Q, r)
+\* Q and result do not change once collect() has returned: checked on the CollectEnd step
+\* (and, since CollectEnd can be delayed arbitrarily, every (Q, result) also occurs with all sends finished)
+AllSent == \A s \in Senders : nsent[s] = Len(Script[s]) /\ spc[s] = "idle"
+OracleAgree == [][CollectEnd /\ AllSent => OracleAgreeAt']_mcvars
 =============================================================================
